@@ -18,6 +18,7 @@ type c07Kind struct {
 	NMI  bool
 	Data func(p *Prog, r *mon.Rng) []uint8
 	IM0  bool
+	Second bool // a maskable (mode 1) request is raised 1..3 Steps after the NMI was accepted
 }
 
 var c07Kinds = []c07Kind{
@@ -30,6 +31,9 @@ var c07Kinds = []c07Kind{
 		return []uint8{0xcd, uint8(h), uint8(h >> 8)}
 	}},
 	{Name: "NMI-in-IM2", IM: 2, NMI: true},
+	// a maskable request arrives while the NMI handler is running (interrupts disabled by
+	// the acceptance, re-enabled by RETN, not by EI): it must be served after the RETN
+	{Name: "NMI+IM1-inside-handler", IM: 1, NMI: true, Second: true},
 }
 
 type c07Final struct {
@@ -131,6 +135,7 @@ func runC07(c *Ctx) {
 				}
 				// continue; watch the accepting Step
 				bad := ""
+				secondRaised := false
 				acceptedAt := -1
 				var pushed, pcAcc uint16
 				budget := n + 400
@@ -141,6 +146,12 @@ func runC07(c *Ctx) {
 					pending := cpu.Interrupt != nil
 					cpu.Step()
 					steps++
+					if kind.Second && acceptedAt >= 0 && !secondRaised && steps-1 == acceptedAt+1+k%3 {
+						secondRaised = true
+						if cpu.Interrupt == nil {
+							cpu.Interrupt = z80.IM1Interrupt()
+						}
+					}
 					if pending && cpu.Interrupt == nil && acceptedAt < 0 {
 						acceptedAt = steps - 1
 						pcAcc = pc
@@ -168,8 +179,12 @@ func runC07(c *Ctx) {
 							}
 						}
 					}
-					if pc == p.HaltAddr && cpu.PC == p.HaltAddr && cpu.Interrupt == nil && acceptedAt >= 0 {
+					if pc == p.HaltAddr && cpu.PC == p.HaltAddr && cpu.Interrupt == nil && acceptedAt >= 0 && (!kind.Second || (secondRaised && mem.Data[genCounter] >= 2)) {
 						done = true
+						break
+					}
+					if kind.Second && secondRaised && pc == p.HaltAddr && cpu.PC == p.HaltAddr && cpu.Interrupt != nil && cpu.IFF1 && steps > acceptedAt+200 {
+						bad = "a maskable request refused inside the NMI handler is still pending long after RETN re-enabled interrupts (parked on the final HALT with IFF1 set)"
 						break
 					}
 				}
@@ -204,11 +219,18 @@ func runC07(c *Ctx) {
 					if kind.NMI {
 						wantN, wantI = 1, 0
 					}
+					if kind.Second {
+						wantN, wantI = 1, 1
+					}
 					if rc.RETN != wantN || rc.RETI != wantI {
 						bad = fmt.Sprintf("handler notifications RETN=%d RETI=%d", rc.RETN, rc.RETI)
 					}
 				}
-				if bad == "" && mem.Data[genCounter] != 1 {
+				wantRuns := uint8(1)
+				if kind.Second {
+					wantRuns = 2
+				}
+				if bad == "" && mem.Data[genCounter] != wantRuns {
 					bad = fmt.Sprintf("handler ran %d times", mem.Data[genCounter])
 				}
 				if bad == "" {
@@ -283,7 +305,7 @@ func runC07(c *Ctx) {
 	c.R.Set("im0_known_finding_occurrences", im0Known)
 	c.R.Set("exhaustive", false)
 	c.R.Set("exhaustive_over", "every Step boundary k = 0..N+2 of every generated program, for each of 6 interrupt kinds (fault enumeration per program)")
-	c.R.Set("rule", "generated register-transparent programs (prologue LD SP/IM/LD I/EI; ALU/load code, DJNZ loops, CALL/RET, PUSH/POP, LDIR/LDDR/CPIR/CPDR/OTIR/INIR with small counts, DI..EI sections, EX/EXX, IX/IY code, port I/O; final HALT) x kinds {NMI, IM1, IM2 (random even vector), IM0 RST p, IM0 CALL nn, NMI under IM2} x EVERY injection point k=0..N+2 (incl. between block repetitions, inside DI sections => deferred service, and while parked on HALT); twin execution: the interrupted run must return to the final HALT with the same registers/flags/IFF (R excluded), memory (outside the 64 bytes below SP and the handler's private counter), device traffic, the handler having run exactly once and RETN/RETI notified once; the return address found at SP in the accepting Step must be the PC of the first unexecuted instruction. Distinct = distinct (program, kind, k) with the request actually accepted")
+	c.R.Set("rule", "generated register-transparent programs (prologue LD SP/IM/LD I/EI; ALU/load code, DJNZ loops, CALL/RET, PUSH/POP, LDIR/LDDR/CPIR/CPDR/OTIR/INIR with small counts, DI..EI sections, EX/EXX, IX/IY code, port I/O; final HALT) x kinds {NMI, IM1, IM2 (random even vector), IM0 RST p, IM0 CALL nn, NMI under IM2, NMI followed by a mode-1 request 1..3 Steps into the NMI handler} x EVERY injection point k=0..N+2 (incl. between block repetitions, inside DI sections => deferred service, and while parked on HALT); twin execution: the interrupted run must return to the final HALT with the same registers/flags/IFF (R excluded), memory (outside the 64 bytes below SP and the handler's private counter), device traffic, the handler having run exactly once and RETN/RETI notified once; the return address found at SP in the accepting Step must be the PC of the first unexecuted instruction. Distinct = distinct (program, kind, k) with the request actually accepted")
 	c.R.Assume("mode 0: a pushed address of exactly PC+len(data) is the recorded known finding; the monitor then rewrites the two stack bytes and still compares the rest of the run (compensated continuation)")
 	c.R.Assume("handler is transparent by construction (saves what it uses, writes only below SP and to its private cell)")
 }
